@@ -13,6 +13,7 @@
 #include <bxdecay0/genbbsub.h>
 
 #include "../engine/vf.hpp"
+#include "../engine/redzone.hpp"
 #include "../ref/refshim.hpp"
 #include <bxdecay0/i_random.h>
 #include "refdict.inc"
@@ -212,6 +213,7 @@ static const size_t DEV_LIMIT = 20000;
 struct DbdState // port side state for a dbd config
 {
   bxdecay0::bbpars pars; int ier = 0;
+  ~DbdState() { vf::redzones(pars, false); }   // (sanitized build) red zones around the spectrum tables: engine/redzone.hpp
 };
 
 static void port_prelude(const Config & c);
@@ -293,7 +295,9 @@ static InitOut init_dbd(const Config & c, DbdState & st, Tape & itape)
 {
   InitOut o;
   TapeRandom rp(itape, 0, DEV_LIMIT), rr(itape, 0, DEV_LIMIT);
+  vf::redzones(st.pars, false);
   st.pars.reset();
+  vf::redzones(st.pars, true);
   if (c.has_window) { st.pars.ebb1 = c.ebb1; st.pars.ebb2 = c.ebb2; }
   st.pars.chi_GTw = c.nme[0]; st.pars.chi_Fw = c.nme[1]; st.pars.chip_GT = c.nme[2]; st.pars.chip_F = c.nme[3];
   st.pars.chip_T = c.nme[4]; st.pars.chip_P = c.nme[5]; st.pars.chip_R = c.nme[6];
@@ -579,15 +583,16 @@ static int run_c02(Ctx & cx, const Args & a)
       // e0 is not known here without init; use Q-independent fractions of a nominal 0..Q range via catalog Q
       double q = catalog::dbd_q_nominal(p.name) - catalog::dbd_level_energy_nominal(p.name, p.level);
       if (q > 0.05) {
-        int wc = r.range(0, grid == "full" ? 3 : 3);
-        std::vector<int> classes; if (grid == "full") classes = {0, 1, 2, 3}; else classes = {wc};
+        int wc = r.range(0, 4);
+        std::vector<int> classes; if (grid == "full") classes = {0, 1, 2, 3, 4}; else classes = {wc};
         for (int w : classes) {
           Config cw = c; cw.has_window = true;
           if (w == 0) { double a1 = r.uniform(0.05, 0.5) * q, b1 = r.uniform(0.55, 0.95) * q; cw.ebb1 = std::round(a1 * 1000) / 1000; cw.ebb2 = std::round(b1 * 1000) / 1000; }
           else if (w == 1) { cw.ebb1 = 0.0; cw.ebb2 = std::round((0.01 + r.uniform(0, 0.03)) * 1000) / 1000 + 0.02; }
           else if (w == 2) { cw.ebb1 = std::round((q - 0.02 - r.uniform(0, 0.1) * q) * 1000) / 1000; cw.ebb2 = 4.3; }
-          else { cw.ebb1 = std::round(0.3 * q * 1000) / 1000; cw.ebb2 = q + 0.5; }
-          static const char * wn[] = {"interior", "low-sliver", "high-sliver", "beyond-e0"};
+          else if (w == 3) { cw.ebb1 = std::round(0.3 * q * 1000) / 1000; cw.ebb2 = q + 0.5; }
+          else { cw.ebb1 = -std::round(r.uniform(0.01, 1.0) * 1000) / 1000; cw.ebb2 = std::round(r.uniform(0.4, 0.9) * q * 1000) / 1000; } // negative lower bound: clipped to 0 on both sides
+          static const char * wn[] = {"interior", "low-sliver", "high-sliver", "beyond-e0", "negative-lower-bound"};
           run_dbd_config(cx, cw, seed, nev, wn[w]);
         }
       }
